@@ -105,9 +105,18 @@ func orphanScenario(c *Ctx, k int, braid bool, perm []int, extras bool, label st
 	want := origin.ab.VerifSnapshot()
 	info := map[string]interface{}{"section": "orphans", "k": k, "braid": braid, "perm": perm, "extras": extras}
 	c.Mark(info)
+	// the hypothesis of Props.C13.delivery_order_does_not_matter, observed: a valid history only ever
+	// produces the outcomes admitted / parked-parent-missing / already-known
+	benign := func(what string, err error) {
+		switch errTag(err) {
+		case "ok", "noParent", "leafExists":
+		default:
+			c.Violate("C13", "valid-history-outcome-not-benign", fmt.Sprintf("%s of a vertex of a valid history reported %s (k=%d braid=%v perm=%v)", what, errTag(err), k, braid, perm), info)
+		}
+	}
 	for step, i := range perm {
 		v := hist[i]
-		w.Add(b, &v)
+		benign("delivery", w.Add(b, &v))
 		if extras {
 			switch (step + i) % 5 {
 			case 0: // duplicate
@@ -124,8 +133,12 @@ func orphanScenario(c *Ctx, k int, braid bool, perm []int, extras bool, label st
 		}
 	}
 	for i := 0; i < 40*k+40; i++ {
-		if had, _ := w.Retry(b); !had {
+		had, err := w.Retry(b)
+		if !had {
 			break
+		}
+		if !extras {
+			benign("retry", err)
 		}
 	}
 	got := b.ab.VerifSnapshot()
